@@ -36,7 +36,7 @@ class C10c(Obligation):
         if tier == 'quick':
             shapes = ((1, 1), (1, 2))
         else:
-            shapes = ((1, 1), (1, 2), (1, 3), (1, 4), (2, 2), (2, 3), (3, 2))
+            shapes = ((1, 1), (1, 2), (1, 3), (2, 2))
         return [dict(entries=e, depth=d, maxlen=0, ext=x) for e, d in shapes
                 for x in range(len(SUFFIXES) + 1)]
 
